@@ -175,9 +175,9 @@ def alap_front(draw):
 def campaigns(tier):
     q = tier == "quick"
     return [
-        Campaign("subslot", "hyp", evaluate=eval_project, strategy=lambda: gen.project_specs(PF), n=2000 if q else 50000, floor_nontrivial=0.3,
+        Campaign("subslot", "hyp", evaluate=eval_project, strategy=lambda: gen.project_specs(PF), n=3000 if q else 50000, floor_nontrivial=0.3,
                  describe="D1+D2: sub-slot efforts, chains, mid-slot predecessors, milestones"),
-        Campaign("whole", "hyp", evaluate=eval_project, strategy=lambda: gen.project_specs(PF_WHOLE), n=500 if q else 10000,
+        Campaign("whole", "hyp", evaluate=eval_project, strategy=lambda: gen.project_specs(PF_WHOLE), n=1000 if q else 10000,
                  describe="D0+D2: whole-slot efforts, nesting, container dependencies, task-level ALAP"),
         Campaign("alap_front", "hyp", evaluate=eval_project, strategy=alap_front, n=300 if q else 5000,
                  describe="backward work packed against the very first slot of the project (slot index 0)"),
